@@ -14,7 +14,7 @@
 (* `bad`, one invariant per law).                                          *)
 (***************************************************************************)
 EXTENDS InstallOps, TLC, Json, IOUtils
-CONSTANTS MaxPlan, CatalogName
+CONSTANTS MaxPlan, CatalogName, OptsName
 
 VARIABLES plan, o, fs, log, ver, bad
 vars == <<plan, o, fs, log, ver, bad>>
@@ -54,8 +54,9 @@ Catalog == IF CatalogName = "small" THEN {C1, C2, C3, C5, C7, C8, C9, C10}
 BaseOpts == [prefix |-> <<"usr">>, bindir |-> <<"bin">>, sbindir |-> <<"sbin">>, libdir |-> <<"lib">>,
              includedir |-> <<"include">>, localedir |-> <<"share", "locale">>, datadir |-> <<"share">>,
              mandir |-> <<"share", "man">>, proj |-> "pm", umask |-> 18, eumask |-> 18]
-OptsSet == { BaseOpts, [BaseOpts EXCEPT !.umask = 23, !.eumask = 63], [BaseOpts EXCEPT !.umask = -1],
-             [BaseOpts EXCEPT !.umask = -1, !.eumask = 23] }
+OptsSet == IF OptsName = "two" THEN { [BaseOpts EXCEPT !.umask = 23, !.eumask = 63], [BaseOpts EXCEPT !.umask = -1, !.eumask = 23] }
+           ELSE { BaseOpts, [BaseOpts EXCEPT !.umask = 23, !.eumask = 63], [BaseOpts EXCEPT !.umask = -1],
+                  [BaseOpts EXCEPT !.umask = -1, !.eumask = 23] }
 
 A(tags, skip, dry, oc) == [tags |-> tags, skip |-> skip, dry |-> dry, oc |-> oc]
 ArgSet == { A(<<>>, <<>>, FALSE, FALSE), A(<<>>, <<>>, TRUE, FALSE), A(<<>>, <<>>, FALSE, TRUE),
@@ -148,6 +149,8 @@ Next == \/ \E a \in ArgSet : DoInstall(a)
         \/ Touch
         \/ \E p \in PlantPaths : Plant(p)
 Spec == Init /\ [][Next]_vars
+\* configuration used only to export the input space (EmitModel) without exploring it
+NoNext == FALSE /\ UNCHANGED vars
 
 \* ---- the laws (one invariant each) -----------------------------------------------------
 Confined                   == "Confined" \notin bad
